@@ -1,6 +1,6 @@
 """C17 helper -- a small abstract interpreter for the Python/numpy subset the Newmark and damping-as-force code is written in.
 
-Nothing of /repo is imported or executed: the *source* (the canonicalised ast of e1_srcmodel) is interpreted over
+Nothing of /repo is imported or executed: the *source* (parsed as written; see _raw_tree) is interpreted over
 
   * concrete shapes and loop bounds (a 2-dof system, a handful of time steps: one instance of the property's quantifier domain), and
   * symbolic array *entries* (verifier/e2_formula.py `Rat`: exact rational functions of the symbols the rule chose).
@@ -8,13 +8,25 @@ Nothing of /repo is imported or executed: the *source* (the canonicalised ast of
 Because shapes, indices, loop counters, configuration flags (`self.unc`, `self.nonlin_terms`, `self.order` ...) are ordinary values, a rule
 that reads its facts from the *results* (final array contents, recorded stores, recorded calls of opaque functions) does not depend on
 how the source spells the computation: renamed locals, temporaries, inverted tests, `for`/`while`/`enumerate(zip())`, `iter()/next()`,
-extracted or inlined helpers, import aliases, keyword/positional arguments, module constants, views (`np.transpose`, `np.swapaxes`,
-`.T`, slices), `None`/`np.newaxis`, negative/explicit indices all evaluate to the same values.  Matrices are explicit (entry by entry),
-so products keep their order: `Z @ C` and `C @ Z` are different values.
+extracted or inlined helpers (functions, methods, modules), import aliases, keyword/positional arguments, module constants, views
+(`np.transpose`, `np.swapaxes`, `.T`, slices), `None`/`np.newaxis`, negative/explicit indices all evaluate to the same values.  Matrices
+are explicit (entry by entry), so products keep their order: `Z @ C` and `C @ Z` are different values.
+
+The rules start at the public entry points: a class is *instantiated* by running its own `__init__` (base classes included), so the whole
+chain constructor -> helper methods -> solver -> returned record is the analysed program's, not the rule's.  Supported along the way:
+classes (inheritance, super(), class attributes, @property / @staticmethod / @classmethod / cached_property, __call__, local classes,
+dataclass / NamedTuple / namedtuple records), closures, nonlocal / global, local imports, lambdas, starred targets and arguments, walrus,
+comprehensions (nested), generator expressions and lazy zip / enumerate / map (consumed item by item), generator functions including
+send() (the body runs in a thread of its own that is resumed for one `yield` at a time, so side effects interleave exactly as in CPython),
+try / except / else / finally on the interpreted program's own exceptions, functools.reduce / partial, operator.*, itertools basics; numpy
+basic / advanced / boolean-mask indexing with view semantics, np.ix_, nonzero, broadcasting, out=, in-place operators, stacking, einsum,
+lu_factor results taken apart as (lu, piv) and put together again.  inv(A) of a matrix the rule registered (Interp.named_inv) is kept
+as a matrix of symbols, which keeps the formulas of a several-step history polynomial.
 
 A test whose truth depends on symbolic data (`v0.any()`) is *undecided*: both arms are executed in may-mode, every store made there
 becomes `cond(test, new, old)` - so a quantity that must be stored unconditionally and is stored under a data-dependent test no longer
-equals its documented value.  Anything outside the subset raises `Unsupported` (ANALYSIS-ERROR), never a silent pass.
+equals its documented value.  Anything outside the subset raises `Unsupported` (ANALYSIS-ERROR), never a silent pass; formula arithmetic
+runs under a work budget (`work_reset`), exceeding it is `TooLarge` (also an ANALYSIS-ERROR unless the rule decides on a shorter history).
 """
 from __future__ import annotations
 
@@ -677,6 +689,34 @@ class LU:
         return self._inv
 
 
+class LUPart:
+    """one of the two members of lu_factor's result (`lu, piv = lu_factor(A)`): meaningful only together with its sibling"""
+
+    def __init__(self, lu, which):
+        self.lu, self.which = lu, which
+
+    def __repr__(self):
+        return f"<{self.which} of an LU factorisation>"
+
+
+def lu_parts(lu):
+    if getattr(lu, "_parts", None) is None:
+        lu._parts = (LUPart(lu, "lu"), LUPart(lu, "piv"))
+    return lu._parts
+
+
+def as_lu(x):
+    """the factorisation an argument of lu_solve stands for: the object itself, or the pair (lu, piv) taken apart and put together again.
+    A pair whose members come from two different factorisations is garbage: None"""
+    if isinstance(x, LU):
+        return x
+    if isinstance(x, (tuple, list)) and len(x) == 2 and all(isinstance(e, LUPart) for e in x):
+        if x[0].lu is x[1].lu and x[0].which == "lu" and x[1].which == "piv":
+            return x[0].lu
+        return None
+    raise PyRaise("TypeError", "lu_solve: first argument is not the result of lu_factor")
+
+
 # --------------------------------------------------------------------------------------------------------------------- objects
 class Obj:
     """instance (`self`, SimpleNamespace records): attribute dictionary + optional class for method look-up"""
@@ -726,14 +766,15 @@ class Builtin:
 
 
 class ClassRef:
-    def __init__(self, module, node):
+    def __init__(self, module, node, closure=None):
         self.module, self.node = module, node
         self.name = node.name
+        self.closure = closure       # frame of the function a local class is defined in (its methods see that function's locals)
 
     def bases(self, interp):
         out = []
         for b in self.node.bases:
-            v = interp.eval_in_module(self.module, b)
+            v = interp.eval(b, self.closure) if self.closure is not None else interp.eval_in_module(self.module, b)
             if isinstance(v, ClassRef):
                 out.append(v)
         return out
@@ -1059,6 +1100,8 @@ class Interp:
         return self.eval(node, Frame(module, module.globals))
 
     def make_func(self, node, module, frame, cls):
+        if frame is None and cls is not None and cls.closure is not None:
+            frame = cls.closure
         fr = frame or Frame(module, module.globals)
         a = node.args
         defaults = [self.eval(d, fr) for d in a.defaults]
@@ -1164,12 +1207,50 @@ class Interp:
         """cls(*args, **kwargs): a fresh instance initialised by the class's own __init__"""
         if self.guards:
             raise Unsupported("instantiation under an undecided test")
+        record = None
         for b in cls.node.bases:
-            if not isinstance(self.eval_in_module(cls.module, b), ClassRef):
+            bv = self.eval(b, cls.closure) if cls.closure is not None else self.eval_in_module(cls.module, b)
+            if isinstance(bv, Opaque) and bv.name in ("typing.NamedTuple", "NamedTuple"):
+                record = "namedtuple"
+            elif not isinstance(bv, ClassRef) and not (isinstance(bv, Opaque) and bv.name == "object"):
                 raise Unsupported(f"instantiation of {cls.name}: base class {ast.unparse(b)} is outside the repository")
+        for dec in cls.node.decorator_list:
+            d = ast.unparse(dec.func if isinstance(dec, ast.Call) else dec).rsplit(".", 1)[-1]
+            if d == "dataclass" and not (isinstance(dec, ast.Call) and dec.keywords):
+                record = record or "dataclass"
+            else:
+                raise Unsupported(f"class decorator @{ast.unparse(dec)}")
+        c, fn = cls.find(self, "__init__")
+        if record and fn is None:
+            # a record class: one field per annotated name of the class body, in order, with its default
+            fields = []
+            for k_ in cls.mro(self)[::-1]:
+                for st in k_.node.body:
+                    if isinstance(st, ast.AnnAssign) and isinstance(st.target, ast.Name):
+                        if isinstance(st.value, ast.Call):
+                            raise Unsupported("record field with a computed default")
+                        fields.append((st.target.id, _MISSING if st.value is None else self.eval_in_module(k_.module, st.value)))
+            names = [f for f, _d in fields]
+            if len(args) > len(names) or any(k_ not in names for k_ in kwargs):
+                raise PyRaise("TypeError", f"{cls.name}(): unexpected argument")
+            vals = dict(zip(names, args))
+            for k_, v_ in kwargs.items():
+                if k_ in vals:
+                    raise PyRaise("TypeError", f"{cls.name}(): multiple values for {k_}")
+                vals[k_] = v_
+            for f, d in fields:
+                if f not in vals:
+                    if d is _MISSING:
+                        raise PyRaise("TypeError", f"{cls.name}(): missing argument {f}")
+                    vals[f] = d
+            if record == "namedtuple":
+                import collections
+                return collections.namedtuple(cls.name, names)(*[vals[f] for f in names])
+            obj = Obj(cls, f"{cls.name} instance", **{f: vals[f] for f in names})
+            obj.complete = True
+            return obj
         obj = Obj(cls, f"{cls.name} instance")
         obj.complete = True
-        c, fn = cls.find(self, "__init__")
         if fn is not None:
             self.call(Bound(obj, self.make_func(fn, c.module, None, c)), list(args), dict(kwargs), None)
         elif args or kwargs:
@@ -1214,6 +1295,40 @@ class Interp:
         return r
 
     # ---- attributes
+    def _method(self, owner, c, fn, cls_of_owner):
+        """a function found in a class body, as seen through an instance (owner = Obj) or through the class (owner = ClassRef): the
+        descriptors the standard decorators make"""
+        kind = None
+        for dec in fn.decorator_list:
+            d = ast.unparse(dec)
+            last = d.rsplit(".", 1)[-1]
+            if last in ("property", "staticmethod", "classmethod", "cached_property") and kind is None:
+                kind = last
+            elif last in ("njit", "jit", "wraps") or d.startswith(("numba.", "functools.wraps")):
+                continue                                  # does not change what the function computes
+            elif last in ("setter", "deleter"):
+                raise Unsupported(f"property {last}")
+            else:
+                raise Unsupported(f"decorator @{d}")
+        f = self.make_func(fn, c.module, None, c)
+        if kind == "staticmethod":
+            return f
+        if kind == "classmethod":
+            return Bound(cls_of_owner, f)
+        if isinstance(owner, ClassRef):
+            if kind in ("property", "cached_property"):
+                raise Unsupported("property read through the class")
+            return f
+        if kind == "property":
+            return self.call_func(f, [owner], {}, owner)
+        if kind == "cached_property":
+            r = self.call_func(f, [owner], {}, owner)
+            if self.guards:
+                raise Unsupported("cached_property first read under an undecided test")
+            owner.attrs[fn.name] = r
+            return r
+        return Bound(owner, f)
+
     def getattr(self, v, name, node):
         if isinstance(v, Obj):
             if name in v.attrs:
@@ -1221,6 +1336,8 @@ class Interp:
             if v.cls is not None:
                 c, fn = v.cls.find(self, name)
                 if fn is not None:
+                    if fn.decorator_list:
+                        return self._method(v, c, fn, v.cls)
                     return Bound(v, self.make_func(fn, c.module, None, c))
                 for c in v.cls.mro(self):
                     for st in c.node.body:
@@ -1241,6 +1358,8 @@ class Interp:
             c, fn = v.obj.cls.find(self, name, after=v.cls)
             if fn is None:
                 raise PyRaise("AttributeError", f"super(): no method {name}")
+            if fn.decorator_list:
+                return self._method(v.obj, c, fn, v.obj.cls)
             return Bound(v.obj, self.make_func(fn, c.module, None, c))
         if isinstance(v, ModuleEnv):
             full = v.rel[:-3].replace("/", ".") + "." + name
@@ -1281,6 +1400,12 @@ class Interp:
                 return Builtin("list.index", lambda it, a, k, _v=v: [_hashable(x) for x in _v].index(_hashable(a[0])))
             raise Unsupported(f"list.{name}")
         if isinstance(v, tuple):
+            if name in getattr(v, "_fields", ()):
+                return getattr(v, name)
+            if name == "_replace" and hasattr(v, "_fields"):
+                return Builtin("namedtuple._replace", lambda it, a, k, _v=v: _v._replace(**k))
+            if name == "_asdict" and hasattr(v, "_fields"):
+                return Builtin("namedtuple._asdict", lambda it, a, k, _v=v: dict(_v._asdict()))
             if name == "index":
                 return Builtin("tuple.index", lambda it, a, k, _v=v: [_hashable(x) for x in _v].index(_hashable(a[0])))
             raise Unsupported(f"tuple.{name}")
@@ -1324,8 +1449,14 @@ class Interp:
                 return v.name
             c, fn = v.find(self, name)
             if fn is not None:
+                if fn.decorator_list:
+                    return self._method(v, c, fn, v)
                 return self.make_func(fn, c.module, None, c)
-            raise Unsupported(f"class attribute {v.name}.{name}")
+            for c in v.mro(self):
+                for st in c.node.body:
+                    if isinstance(st, ast.Assign) and any(isinstance(t, ast.Name) and t.id == name for t in st.targets):
+                        return self.eval_in_module(c.module, st.value)
+            raise PyRaise("AttributeError", f"class {v.name} has no attribute {name}")
         if isinstance(v, PyIter):
             if name == "send" and isinstance(v.it, GenDriver):
                 return Builtin("generator.send", lambda it, a, k, _g=v.it: _gen_send(_g, a[0]))
@@ -1420,6 +1551,19 @@ class Interp:
         raise Unsupported(f"subscript store on {type(base).__name__}")
 
     def bind_name(self, frame, name, val):
+        scope = getattr(frame, "scopes", None)
+        if scope and name in scope:
+            if scope[name] == "global":
+                if self.guards:
+                    raise Unsupported("global assigned under an undecided test")
+                frame.module.globals[name] = val
+                return
+            fr = frame.parent
+            while fr is not None and name not in fr.locals:
+                fr = fr.parent
+            if fr is None:
+                raise PyRaise("SyntaxError", f"no binding for nonlocal {name}")
+            frame = fr
         if self.guards:
             val = self._merge(val, frame.locals.get(name, _MISSING))
         frame.locals[name] = val
@@ -1469,6 +1613,8 @@ class Interp:
             return [v[i] for i in range(v.shape[0])]
         if isinstance(v, PyIter):
             return list(v.it)
+        if isinstance(v, LU):
+            return list(lu_parts(v))
         if isinstance(v, Und):
             raise Unsupported(f"iteration over a value that depends on an undecided test ({v.desc})")
         if v is None or isinstance(v, (bool, int, Rat)) or (isinstance(v, Opaque) and v.inert):
@@ -1499,6 +1645,8 @@ class Interp:
             return Und(f"truth of {v!r}")
         if isinstance(v, (tuple, list, dict, str, range)):
             return len(v) > 0
+        if isinstance(v, LUPart):
+            raise PyRaise("ValueError", "truth value of an array is ambiguous")
         if isinstance(v, NDArr):
             if v.size == 1:
                 return self.truth(v.flat()[0])
@@ -1553,7 +1701,13 @@ class Interp:
                 raise Unsupported("continue under an undecided test")
             raise _Continue()
         elif isinstance(st, ast.FunctionDef):
+            if st.decorator_list:
+                raise Unsupported(f"decorated local function {st.name}")
             self.bind_name(frame, st.name, self.make_func(st, frame.module, frame, frame.cls))
+        elif isinstance(st, ast.ClassDef):
+            if st.keywords:
+                raise Unsupported(f"local class {st.name} with keywords")      # decorators are looked at when the class is instantiated
+            self.bind_name(frame, st.name, ClassRef(frame.module, st, closure=frame))
         elif isinstance(st, ast.Raise):
             if self.guards:
                 raise Unsupported("raise under an undecided test")
@@ -1572,10 +1726,21 @@ class Interp:
                 if item.optional_vars is not None:
                     self.assign(item.optional_vars, v, frame, st)
             self.exec_block(st.body, frame)
-        elif isinstance(st, (ast.Import, ast.ImportFrom)):
-            raise Unsupported("import inside a function")
+        elif isinstance(st, ast.Import):
+            for al in st.names:
+                if al.asname:
+                    self.bind_name(frame, al.asname, frame.module._ext(al.name))
+                else:
+                    top = al.name.split(".")[0]
+                    self.bind_name(frame, top, frame.module._ext(top))
+        elif isinstance(st, ast.ImportFrom):
+            for al in st.names:
+                self.bind_name(frame, al.asname or al.name, frame.module._define(al.name, ("from", st.level, st.module or "", al.name)))
         elif isinstance(st, (ast.Global, ast.Nonlocal)):
-            raise Unsupported("global / nonlocal")
+            if getattr(frame, "scopes", None) is None:
+                frame.scopes = {}
+            for nm in st.names:
+                frame.scopes[nm] = "global" if isinstance(st, ast.Global) else "nonlocal"
         elif isinstance(st, ast.Delete):
             for t in st.targets:
                 for t1 in (t.elts if isinstance(t, (ast.Tuple, ast.List)) else [t]):
@@ -1717,6 +1882,8 @@ class Interp:
     # ---- expressions
     def lookup(self, name, frame):
         fr = frame
+        if getattr(frame, "scopes", None) and frame.scopes.get(name) == "global":
+            fr = None
         while fr is not None:
             if name in fr.locals:
                 return fr.locals[name]
@@ -1765,6 +1932,8 @@ class Interp:
             if k not in base:
                 raise PyRaise("KeyError", repr(k))
             return base[k]
+        if isinstance(base, LU):
+            return self.index(lu_parts(base), key)
         if isinstance(base, Und):
             raise Unsupported(f"subscript of a value that depends on an undecided test ({base.desc})")
         if base is None or isinstance(base, (bool, int, Rat)) or (isinstance(base, Opaque) and base.inert):
@@ -1923,14 +2092,14 @@ class Interp:
         raise Unsupported(f"expression {type(node).__name__}")
 
     def eval_comp(self, node, frame):
-        if len(node.generators) != 1 or node.generators[0].is_async:
-            raise Unsupported("nested comprehension")
-        g = node.generators[0]
+        if any(g.is_async for g in node.generators):
+            raise Unsupported("async comprehension")
         fr = Frame(frame.module, {}, frame, frame.cls, frame.selfobj, None)
-        source = self.iter(self.eval(g.iter, frame))        # the outermost iterable is evaluated at once, as in CPython
+        source = self.iter(self.eval(node.generators[0].iter, frame))        # the outermost iterable is evaluated at once, as in CPython
 
-        def produce():
-            for x in source:
+        def produce(level=0, src=source):
+            g = node.generators[level]
+            for x in (src if level == 0 else self.iter(self.eval(g.iter, fr))):
                 self.assign(g.target, x, fr, node)
                 ok = True
                 for c in g.ifs:
@@ -1938,11 +2107,14 @@ class Interp:
                     if isinstance(t, Und):
                         raise Unsupported("comprehension filter depends on data")
                     ok = ok and t
-                if ok:
-                    if isinstance(node, ast.DictComp):
-                        yield (_hashable(self.eval(node.key, fr)), self.eval(node.value, fr))
-                    else:
-                        yield self.eval(node.elt, fr)
+                if not ok:
+                    continue
+                if level + 1 < len(node.generators):
+                    yield from produce(level + 1)
+                elif isinstance(node, ast.DictComp):
+                    yield (_hashable(self.eval(node.key, fr)), self.eval(node.value, fr))
+                else:
+                    yield self.eval(node.elt, fr)
         if isinstance(node, ast.GeneratorExp):
             return PyIter(produce())                        # lazy: one element per next()
         if isinstance(node, ast.DictComp):
@@ -2281,6 +2453,155 @@ def _np_copy(it, a, k):
     return to_array(a[0]).copy()
 
 
+def _np_concat(axis_default, atleast=None, stack=False):
+    def f(it, a, k):
+        seq = it.iterate(a[0])
+        axis = _as_int(a[1] if len(a) > 1 else k.get("axis", axis_default))
+        arrs = [to_array(x) for x in seq]
+        if not arrs:
+            raise PyRaise("ValueError", "need at least one array to concatenate")
+        if atleast == "v":
+            arrs = [x.reshape((1,) + x.shape) if x.ndim < 2 else x for x in arrs]
+        elif atleast == "c":
+            arrs = [x.reshape(x.shape + (1,)) if x.ndim < 2 else x for x in arrs]
+        if stack:
+            nd = arrs[0].ndim + 1
+            ax = axis % nd
+            arrs = [x.reshape(x.shape[:ax] + (1,) + x.shape[ax:]) for x in arrs]
+            axis = ax
+        nd = arrs[0].ndim
+        if nd == 0:
+            raise PyRaise("ValueError", "zero-dimensional arrays cannot be concatenated")
+        ax = axis % nd
+        for x in arrs:
+            if x.ndim != nd or any(x.shape[i] != arrs[0].shape[i] for i in range(nd) if i != ax):
+                raise PyRaise("ValueError", "all the input array dimensions except for the concatenation axis must match exactly")
+        # move the axis first, concatenate the row-major entry lists, move it back
+        moved = [x.transpose([ax] + [i for i in range(nd) if i != ax]) for x in arrs]
+        ents = [e for x in moved for e in x.flat()]
+        shape = (sum(x.shape[0] for x in moved),) + moved[0].shape[1:]
+        out = NDArr.new(shape, ents)
+        back = list(range(1, ax + 1)) + [0] + list(range(ax + 1, nd))
+        return out.transpose(back).copy() if ax else out
+    return f
+
+
+def _np_einsum(it, a, k):
+    """explicit summation over the entries: any subscripts of the form 'ab,bc->ac' (no ellipsis)"""
+    if not a or not isinstance(a[0], str) or "<str>" in a[0] or "." in a[0] or set(k) - {"optimize"}:
+        raise Unsupported("einsum form")
+    spec = a[0].replace(" ", "")
+    ops = [to_array(x) for x in a[1:]]
+    lhs, _, rhs = spec.partition("->")
+    ins = lhs.split(",")
+    if len(ins) != len(ops) or any(len(s_) != o.ndim for s_, o in zip(ins, ops)):
+        raise PyRaise("ValueError", "einsum: operands do not match the subscripts")
+    if "->" not in spec:
+        letters = "".join(ins)
+        rhs = "".join(sorted(c for c in set(letters) if letters.count(c) == 1))
+    size = {}
+    for s_, o in zip(ins, ops):
+        for c, n in zip(s_, o.shape):
+            if size.setdefault(c, n) != n:
+                raise PyRaise("ValueError", "einsum: inconsistent sizes")
+    summed = [c for c in size if c not in rhs]
+    out = []
+    for oi in itertools.product(*[range(size[c]) for c in rhs]):
+        env = dict(zip(rhs, oi))
+        tot = 0
+        for si in itertools.product(*[range(size[c]) for c in summed]):
+            env.update(zip(summed, si))
+            term = 1
+            for s_, o in zip(ins, ops):
+                term = s_bin("*", term, o.item(*[env[c] for c in s_]) if o.ndim else o.flat()[0])
+            tot = s_bin("+", tot, term)
+        out.append(tot)
+    if not rhs:
+        return out[0]
+    return NDArr.new(tuple(size[c] for c in rhs), out)
+
+
+def _np_fill_diagonal(it, a, k):
+    m, v = a[0], a[1]
+    if not isinstance(m, NDArr) or m.ndim != 2:
+        raise Unsupported("fill_diagonal of a non-matrix")
+    n = min(m.shape)
+    vals = _bc_entries(to_array(v), (n,)) if isinstance(v, (NDArr, list, tuple)) else [v] * n
+    for i in range(n):
+        it.assign_index(m, (i, i), vals[i], None)
+
+
+def _np_diagonal(it, a, k):
+    m = to_array(a[0])
+    if m.ndim != 2 or len(a) > 1 or k:
+        raise Unsupported("diagonal with offsets / of a non-matrix")
+    n = min(m.shape)
+    return NDArr(m.st, (n,), [m.ix[i * m.shape[1] + i] for i in range(n)])     # a view, as in numpy
+
+
+def _np_outer(it, a, k):
+    x, y = to_array(a[0]).reshape((-1,)), to_array(a[1]).reshape((-1,))
+    return NDArr.new((x.size, y.size), [s_bin("*", p, q) for p in x.flat() for q in y.flat()])
+
+
+def _np_full(it, a, k):
+    v = a[1] if len(a) > 1 else k["fill_value"]
+    if not is_num(v) and not isinstance(v, bool):
+        raise Unsupported("np.full with a non-scalar")
+    return NDArr.full(_shape_arg(a[0]), v)
+
+
+def _np_squeeze(it, a, k):
+    v = to_array(a[0])
+    axis = a[1] if len(a) > 1 else k.get("axis")
+    if axis is None:
+        return v.reshape([n for n in v.shape if n != 1])
+    ax = _as_int(axis) % v.ndim
+    if v.shape[ax] != 1:
+        raise PyRaise("ValueError", "cannot select an axis to squeeze out which has size not equal to one")
+    return v.reshape(v.shape[:ax] + v.shape[ax + 1:])
+
+
+def _np_expand_dims(it, a, k):
+    v = to_array(a[0])
+    ax = _as_int(a[1] if len(a) > 1 else k["axis"]) % (v.ndim + 1)
+    return v.reshape(v.shape[:ax] + (1,) + v.shape[ax:])
+
+
+def _np_flip(it, a, k):
+    v = to_array(a[0])
+    axis = a[1] if len(a) > 1 else k.get("axis")
+    key = tuple(slice(None, None, -1) if (axis is None or i == _as_int(axis) % v.ndim) else slice(None) for i in range(v.ndim))
+    return v[key]
+
+
+def _np_multi_dot(it, a, k):
+    seq = [to_array(x) for x in it.iterate(a[0])]
+    r = seq[0]
+    for x in seq[1:]:
+        r = matmul(r, x)
+    return r
+
+
+def _namedtuple(it, a, k):
+    import collections
+    name = a[0] if a else k["typename"]
+    fields = a[1] if len(a) > 1 else k["field_names"]
+    if isinstance(fields, str):
+        fields = fields.replace(",", " ").split()
+    if not isinstance(name, str) or not all(isinstance(x, str) and "<str>" not in x for x in fields):
+        raise Unsupported("namedtuple with computed field names")
+    cls_ = collections.namedtuple(name, list(fields))
+    return Builtin("namedtuple:" + name, lambda it_, a_, k_: _nt_make(cls_, a_, k_))
+
+
+def _nt_make(cls_, a, k):
+    try:
+        return cls_(*a, **k)
+    except TypeError as e:
+        raise PyRaise("TypeError", str(e))
+
+
 def _identity_decorator(it, a, k):
     """numba.njit / numba.jit: compilation does not change what the function computes"""
     if a and isinstance(a[0], (Func, Bound)):
@@ -2347,8 +2668,12 @@ def _la_lu_solve(it, a, k):
     lu = a[0] if a else k["lu_and_piv"]
     b = a[1] if len(a) > 1 else k["b"]
     trans = a[2] if len(a) > 2 else k.get("trans", 0)
-    if not isinstance(lu, LU):
-        raise PyRaise("TypeError", "lu_solve: first argument is not the result of lu_factor")
+    lu = as_lu(lu)
+    if lu is None:
+        # factors of one matrix with the pivots of another: the result is not a solution of anything
+        global _GARBAGE
+        _GARBAGE += 1
+        return NDArr.syms(f"mismatched_lu{_GARBAGE}", to_array(b).shape)
     t = _as_int(trans)
     inv = lu.inv(it)
     if t in (1, 2):
@@ -2358,12 +2683,17 @@ def _la_lu_solve(it, a, k):
     return matmul(inv, to_array(b))
 
 
+_GARBAGE = 0
+
+
 def _la_inv(it, a, k):
     return it.inverse_of(a[0]) if it is not None else inverse(to_array(a[0]))
 
 
 def _simple_namespace(it, a, k):
-    return Obj(None, "SimpleNamespace", **k)
+    o = Obj(None, "SimpleNamespace", **k)
+    o.complete = True            # its attributes are exactly those given and assigned later
+    return o
 
 
 def _op(opname):
@@ -2393,6 +2723,15 @@ EXTERNALS = {
     "numpy.issubdtype": lambda it, a, k: a[0] == a[1], "numpy.linalg.cond": _np_cond, "numpy.finfo": _np_finfo, "numpy.copy": _np_copy,
     "numpy.abs": lambda it, a, k: _b_abs(it, a, k), "numpy.absolute": lambda it, a, k: _b_abs(it, a, k),
     "numpy.ndim": lambda it, a, k: to_array(a[0]).ndim, "numpy.shape": lambda it, a, k: to_array(a[0]).shape,
+    "numpy.concatenate": _np_concat(0), "numpy.vstack": _np_concat(0, "v"), "numpy.hstack": lambda it, a, k: _np_concat(0 if to_array(it.iterate(a[0])[0]).ndim == 1 else 1)(it, [it.iterate(a[0])], k),
+    "numpy.column_stack": _np_concat(1, "c"), "numpy.stack": _np_concat(0, None, True), "numpy.row_stack": _np_concat(0, "v"),
+    "numpy.fill_diagonal": _np_fill_diagonal, "numpy.diagonal": _np_diagonal, "numpy.trace": lambda it, a, k: _arr_sum(it, _np_diagonal(it, [a[0]], {}), [], {}),
+    "numpy.einsum": _np_einsum, "numpy.outer": _np_outer, "numpy.full": _np_full, "numpy.squeeze": _np_squeeze, "numpy.expand_dims": _np_expand_dims,
+    "numpy.flip": _np_flip, "numpy.linalg.multi_dot": _np_multi_dot, "numpy.inner": lambda it, a, k: _np_einsum(it, ["i,i", a[0], a[1]], {}) if to_array(a[0]).ndim == 1 and to_array(a[1]).ndim == 1 else (_ for _ in ()).throw(Unsupported("np.inner of matrices")),
+    "numpy.sum": lambda it, a, k: _arr_sum(it, to_array(a[0]), a[1:], k), "numpy.asarray_chkfinite": _np_asarray, "numpy.asanyarray": _np_asarray,
+    "numpy.isscalar": lambda it, a, k: is_num(a[0]) or isinstance(a[0], (bool, str)), "numpy.ravel": lambda it, a, k: to_array(a[0]).reshape((-1,)),
+    "numpy.reshape": lambda it, a, k: _arr_reshape(it, to_array(a[0]), a[1:], k), "numpy.negative": lambda it, a, k: ew_bin("-", 0, a[0]),
+    "collections.namedtuple": _namedtuple,
     "numba.njit": _identity_decorator, "numba.jit": _identity_decorator,
     "functools.reduce": _reduce,
     "operator.iadd": _iop("+"), "operator.isub": _iop("-"), "operator.imul": _iop("*"), "operator.itruediv": _iop("/"),
@@ -2541,6 +2880,8 @@ def _arr_sum(it, v, a, k):
 
 
 ARRAY_METHODS = {
+    "diagonal": lambda it, v, a, k: _np_diagonal(it, [v] + list(a), k),
+    "squeeze": lambda it, v, a, k: _np_squeeze(it, [v] + list(a), k), "item": lambda it, v, a, k: v.item(*[_as_int(x) for x in a]) if a else v.flat()[0],
     "max": _arr_extreme("max"), "min": _arr_extreme("min"), "sum": _arr_sum,
     "nonzero": lambda it, v, a, k: _np_nonzero(it, [v], {}),
     "tolist": lambda it, v, a, k: v.tolist(),
@@ -2574,6 +2915,8 @@ def _b_len(it, a, k):
         return v.shape[0]
     if isinstance(v, (tuple, list, dict, str, range)):
         return len(v)
+    if isinstance(v, LU):
+        return 2
     raise Unsupported(f"len of {type(v).__name__}")
 
 
